@@ -342,6 +342,8 @@ class Reread(object):
 def _show(t):
     if t is None:
         return '<file deleted>'
+    if getattr(t, 'extra', None):
+        return str(t) + ''.join('\n; ---- include file %s ----\n%s' % (k, v) for k, v in sorted(t.extra.items()))
     if isinstance(t, bytes):
         try:
             return t.decode('utf-8')
@@ -380,10 +382,42 @@ def run_reread(chk, wd):
             for e0, e1 in ((None, 'S="1"'), ('S="1"', 'S="2"'), ('S="1"', None), ('S="1"', 'S="1"')):
                 rr.case(old, new, 'struct:' + label, sup_env=(e0, e1),
                         expect_triple=([], [], []) if e0 == e1 else ([], ['l', 'a'], []))
+            # inheritance: a program that sets the key itself does not see the change of [supervisord]
+            own = [c15_gen.P('a', ('environment', 'S="own"')), c15_gen.P('b'), c15_gen.L('l', ('environment', 'T="t"'))]
+            for e0, e1, exp3 in (('S="1"', 'S="2"', ([], ['l', 'b'], [])), (None, 'S="1"', ([], ['l', 'b'], [])),
+                                 ('S="1",T="1"', 'S="1",T="2"', ([], ['a', 'b'], [])),
+                                 ('S="1"', 'S="1",U="3"', ([], ['l', 'a', 'b'], [])), ('S="1",U="3"', 'U="3",S="1"', ([], [], []))):
+                rr.case(own, own, 'struct:sup-environment-inherit', sup_env=(e0, e1), expect_triple=exp3)
+                rr.sequence([rr.files(own, own, (e0, e0))[0], rr.files(own, own, (e1, e1))[0], rr.files(own, own, (e0, e0))[0]],
+                            'seq:sup-environment-inherit', expect_triple=([], [], []))
         else:
             rr.case(old, new, 'struct:' + label, expect_triple=exp)
         rr.unchanged(new, 'unchanged:' + label)
         chk.dist('structural')
+    # include files added / removed / edited / the [include] section dropped
+    F = rr.R.Files
+    main = rr.base + '[include]\nfiles = conf.d/*.conf\n\n' + c15_gen.render([c15_gen.P('m')])
+    main_noinc = rr.base + c15_gen.render([c15_gen.P('m')])
+    i1 = c15_gen.render([c15_gen.P('a'), c15_gen.L('l')])
+    i1b = c15_gen.render([c15_gen.P('a', ('startsecs', '4')), c15_gen.L('l')])
+    i2 = c15_gen.render([c15_gen.P('b')])
+    v0 = F(main, {'conf.d/one.conf': i1})
+    for label, old_v, new_v, exp3 in [
+        ('include-added', v0, F(main, {'conf.d/one.conf': i1, 'conf.d/two.conf': i2}), (['b'], [], [])),
+        ('include-removed', F(main, {'conf.d/one.conf': i1, 'conf.d/two.conf': i2}), v0, ([], [], ['b'])),
+        ('include-edited', v0, F(main, {'conf.d/one.conf': i1b}), ([], ['a'], [])),
+        ('include-renamed-file', v0, F(main, {'conf.d/other.conf': i1}), ([], [], [])),
+        ('include-all-removed', v0, F(main, {}), ([], [], ['l', 'a'])),
+        ('include-section-dropped', v0, F(main_noinc, {'conf.d/one.conf': i1}), ([], [], ['l', 'a'])),
+        ('include-section-added', F(main_noinc, {'conf.d/one.conf': i1}), v0, (['l', 'a'], [], [])),
+        ('include-moved-into-main', v0, F(main + i1, {}), ([], [], [])),
+        ('include-unchanged', v0, F(main, {'conf.d/one.conf': i1}), ([], [], [])),
+    ]:
+        rr.sequence([old_v, new_v], 'struct:' + label, expect_triple=exp3)
+        rr.sequence([old_v, new_v, old_v], 'seq:' + label)
+        rr.sequence([old_v, (F(main, {'conf.d/one.conf': i1, 'conf.d/bad.conf': '[program:q]\nnumprocs=zz\n'}), '!bad include file'),
+                     new_v], 'seq:broken-include:' + label, expect_triple=exp3)
+        chk.dist('structural:include')
     # sequences: edit -> reread -> edit -> reread, no update in between
     seqs = c15_gen.reread_sequences(chk.tier)
     for label, steps in seqs:
@@ -393,6 +427,10 @@ def run_reread(chk, wd):
         steps, labels = c15_gen.random_chain(rng, rng.choice([2, 2, 3]))
         rr.sequence([rr.base + c15_gen.render(x) for x in steps], 'seq:random:' + '+'.join(labels))
         chk.dist('sequence:random')
+    # broken files inside edit sequences: CANT_REREAD and nothing touched; after the repair the real difference
+    for label, steps in c15_gen.broken_sequences(rr.base):
+        rr.sequence(steps, 'seq:' + label)
+        chk.dist('sequence:broken')
     # listener subscriptions: the same set of event types in every order
     import itertools
     for evs in (['PROCESS_COMMUNICATION', 'SUPERVISOR_STATE_CHANGE', 'EVENT'], ['TICK_5', 'PROCESS_LOG', 'PROCESS_STATE', 'TICK_60']):
@@ -806,6 +844,14 @@ class Update(object):
                 if c is not None and b['cfg'] is not c and (c != b['cfg']):
                     replay.update(kind='after update an active group differs from the file', group=n)
                     self.violation(replay)
+            if self.fresh is not None:
+                for n, b in g1.items():
+                    if n in self.fresh:
+                        d = self.R.describes(self.fresh[n], self.R.encode_group(b['cfg'], 0))
+                        if d:
+                            replay.update(kind='after update an active group does not have the options of the file',
+                                          group=n, differences=d)
+                            self.violation(replay)
             if isinstance(cinfo, list):
                 names = sorted(set(x['group'] for x in cinfo))
                 if not all(x['inuse'] for x in cinfo) or names != sorted(n for n in new_by if new_by[n].process_configs):
@@ -816,6 +862,71 @@ class Update(object):
         if len(self.samples) < 3 and touched and self.n % 41 == 7:
             self.samples.append({'label': sc.get('label'), 'args': sc['args'], 'reread': [added, changed, removed],
                                  'rpc_calls': [m for m, _, _ in run.log]})
+
+
+def reread_only(up, sc, seed):
+    """`reread` (twice, the daemon running in between) over a daemon whose processes are in the
+    scenario's states: the answer names the scenario's fates, no group, process record, pid or child
+    is touched, nothing is signalled or forked because of it."""
+    import random
+    import c15_driver
+    import c15_gen
+    chk = up.chk
+    old, new = c15_driver.scenario_files(sc, up.wd)
+    old_text = up.base + c15_gen.render(old)
+    new_text = up.base + c15_gen.render(new)
+    replay = {'scenario': sc, 'old_file': old_text, 'new_file': new_text, 'seed': seed, 'steps': 'boot(old), write(new), reread, reread'}
+    run = c15_driver.UpdateRun(up.wd, sc, random.Random(seed))
+    up.n += 1
+    try:
+        run.boot(old_text)
+        run.prepare()
+        s0 = run.snapshot()
+        run.write(new_text)
+        answers = []
+        for _ in range(2):
+            try:
+                answers.append(run.call('reloadConfig', ()))
+            except BaseException as e:
+                answers.append(('raised', repr(e)[:200]))
+            for _ in range(2):
+                run.one_pass()
+        s1 = run.snapshot()
+    finally:
+        run.close()
+    k = run.kernel
+    trace_after = k.trace[s0['trace_len']:]
+    exp_changed = sorted(g['name'] for g in sc['groups'] if g['fate'] == 'change')
+    exp_removed = sorted(g['name'] for g in sc['groups'] if g['fate'] == 'remove')
+    a0 = answers[0]
+    if not (isinstance(a0, list) and sorted(a0[0][1]) == exp_changed and sorted(a0[0][2]) == exp_removed
+            and sorted(a0[0][0]) == sorted(sc['added'])) or answers[1] != a0:
+        replay.update(kind='reread over a running daemon does not report the edit (or differs when repeated)', answers=repr(answers),
+                      expected=[sorted(sc['added']), exp_changed, exp_removed])
+        up.violation(replay)
+    bad = []
+    if [(g['name'], g['gid'], [p[3] for p in g['procs']]) for g in s0['groups']] != \
+            [(g['name'], g['gid'], [p[3] for p in g['procs']]) for g in s1['groups']]:
+        bad.append('group table or process objects')
+    for g0, g1 in zip(s0['groups'], s1['groups']):
+        for pa, pb in zip(g0['procs'], g1['procs']):
+            if pa[2] in (10, 20) and (pb[1] != pa[1] or pa[1] not in k.live):
+                bad.append('pid of %s:%s %r -> %r' % (g0['name'], pa[0], pa[:3], pb[:3]))
+    stopping = set(p[1] for g in s0['groups'] for p in g['procs'] if p[2] == 40)
+    kills = [t for t in trace_after if t[0] == 'kill' and abs(t[1]) not in stopping]
+    if kills:
+        bad.append('signals %r' % kills[:3])
+    for t in trace_after:
+        if t[0] == 'fork':
+            o = run.owner.get(t[2])
+            st = [p[2] for g in s0['groups'] for p in g['procs'] if o and p[3] == o[2]]
+            if not st or st[0] not in (30, 100):
+                bad.append('fork of %r (state before %r)' % (o and o[:2], st))
+    if bad:
+        replay.update(kind='reread touched a running process', what=bad)
+        up.violation(replay)
+    up.outcomes.add(('reread-only', tuple(sorted(set(p[2] for g in s0['groups'] for p in g['procs'])))))
+    chk.dist('reread-over-live-daemon')
 
 
 def run_update(chk, wd):
@@ -833,6 +944,14 @@ def run_update(chk, wd):
     for i, sc in enumerate(scs):
         guarded(sc, chk.seed + i)
     n_exh = len(scs)
+    for i, sc in enumerate(scs):
+        if not sc['corrupt'] and not sc.get('moves') and (chk.tier != 'quick' or i % 2 == 0):
+            try:
+                reread_only(up, sc, chk.seed + 5000 + i)
+            except BaseException as e:
+                import traceback
+                up.violation({'kind': '%s escaped from the implementation during reread over a running daemon' % type(e).__name__,
+                              'scenario': sc, 'traceback': traceback.format_exc()[-3000:]})
     nrand = 120 if chk.tier == 'quick' else 3000
     for i in range(nrand):
         guarded(c15_gen.random_update_scenario(chk.rng), chk.seed + 1000 + i)
